@@ -1,5 +1,8 @@
 """C18 — resource_added announces every publication exactly once, on the right context."""
-from ..core import Composite
+import random
+from typing import Any
+
+from ..core import Composite, Prop
 from ..kernel_prop import KernelProp
 from ..startup_prop import StartupProp
 
@@ -42,15 +45,146 @@ class C18Startup(StartupProp):
         return sum(1 for e in impl["trace"] if e["l"][0] in ("pub", "pubFac")) >= 2
 
 
+class C18NoneProduct(Prop):
+    """A factory whose product is `None` (a factory annotated `-> Optional[T]`, say): the generation is announced once
+    like any other, and the lookups that follow - which return the existing `None` - announce nothing and call no
+    factory. Decided on the implementation only (in the kernel model every product is an object with an identity)."""
+    id = "C18"
+    kinds = ("noneproduct",)
+    APIS = ("nowait", "get", "inject", "all")
+
+    def generate(self, rng: random.Random, tier: str, index: int) -> dict[str, Any]:
+        return {"kind": "noneproduct", "backend": ("asyncio", "trio")[index % 2], "async": rng.random() < 0.5,
+                "ntypes": rng.choice([1, 2, 3]), "taken": rng.random() < 0.3, "in_child": rng.random() < 0.5,
+                "lookups": [rng.choice(self.APIS) for _ in range(rng.randint(2, 5))]}
+
+    def exhaustive(self, tier: str):
+        return [{"kind": "noneproduct", "backend": b, "async": a, "ntypes": n, "taken": False, "in_child": ch,
+                 "lookups": [first, second, "all"], "origin": "noneproduct"}
+                for b in ("asyncio", "trio") for a in (False, True) for n in (1, 2) for ch in (False, True)
+                for first in ("nowait", "get", "inject") for second in ("nowait", "get", "inject")
+                if not (a and "nowait" in (first,))]
+
+    def run_impl(self, case):
+        import anyio
+
+        from asphalt.core import Context, inject, resource
+
+        from ..impl import vclock
+        from ..impl.kernel import TYPES
+
+        async def main() -> dict[str, Any]:
+            calls: list[int] = []
+            events: dict[str, list[Any]] = {"root": [], "child": []}
+            results: list[str] = []
+            types = [TYPES[i] for i in range(case["ntypes"])]
+
+            def sfac() -> Any:
+                calls.append(1)
+                return None
+
+            async def afac() -> Any:
+                calls.append(1)
+                await anyio.lowlevel.checkpoint()
+                return None
+
+            @inject
+            async def injected(*, r: Optional[TYPES[0]] = resource("np")) -> Any:      # noqa: F821
+                return r
+
+            async def listen(name: str, ctx: Any, started: anyio.Event) -> None:
+                async with ctx.resource_added.stream_events(max_queue_size=1000) as stream:
+                    started.set()
+                    async for ev in stream:
+                        events[name].append((sorted(TYPES.index(t) for t in ev.resource_types), ev.resource_name, ev.is_factory))
+
+            async with anyio.create_task_group() as tg:
+                async with Context() as root:
+                    st = anyio.Event()
+                    tg.start_soon(listen, "root", root, st)
+                    await st.wait()
+                    if case["taken"] and case["ntypes"] > 1:
+                        root.add_resource(TYPES[1](5), "np", types=[TYPES[1]])
+                    root.add_resource_factory(afac if case["async"] else sfac, "np", types=types)
+                    async with Context() as child:
+                        st2 = anyio.Event()
+                        tg.start_soon(listen, "child", child, st2)
+                        await st2.wait()
+                        ctx = child if case["in_child"] else root
+                        for api in case["lookups"]:
+                            try:
+                                if api == "nowait":
+                                    results.append(repr(ctx.get_resource_nowait(TYPES[0], "np")))
+                                elif api == "get":
+                                    results.append(repr(await ctx.get_resource(TYPES[0], "np")))
+                                elif api == "inject":
+                                    if ctx is child:
+                                        results.append(repr(await injected()))
+                                    else:
+                                        results.append(repr(await ctx.get_resource(TYPES[0], "np", optional=True)))
+                                else:
+                                    results.append(repr(sorted(ctx.get_resources(TYPES[0]).items())))
+                            except Exception as e:  # noqa: BLE001
+                                results.append("raised " + type(e).__name__)
+                        await anyio.wait_all_tasks_blocked()
+                tg.cancel_scope.cancel()
+            return {"calls": len(calls), "events": events, "results": results}
+
+        from typing import Optional  # noqa: F401 - used by the injected function's annotation
+
+        main.__globals__["Optional"] = Optional
+        return vclock.run(main, backend=case["backend"])
+
+    def model_request(self, case, impl):
+        return None
+
+    def compare(self, case, impl, model):
+        return None
+
+    def monitor(self, case, impl):
+        fails = []
+        where = "child" if case["in_child"] else "root"
+        other = "root" if case["in_child"] else "child"
+        free = [i for i in range(case["ntypes"]) if not (case["taken"] and case["ntypes"] > 1 and i == 1)]
+        # the first lookup that can generate: get_resource_nowait refuses an asynchronous factory
+        gen = next((n for n, api in enumerate(case["lookups"]) if api != "all" and not (case["async"] and api == "nowait")), None)
+        want_ev = [] if gen is None else [(free, "np", False)]
+        got = [e for e in impl["events"][where] if not e[2]]
+        if case["in_child"] is False:
+            got = [e for e in got if e[1] == "np" and e[0] != [1]]      # (not the resource that took a type)
+        else:
+            got = [e for e in got if e[1] == "np"]
+        if got != want_ev:
+            fails.append(f"one generation of a factory whose product is None and {len(case['lookups'])} lookups {case['lookups']} "
+                         f"announced {got} on the context, expected {want_ev}")
+        if [e for e in impl["events"][other] if e[1] == "np" and not e[2] and e[0] != [1]]:
+            fails.append(f"the generation in the {where} context was announced on the {other} context too")
+        if impl["calls"] != (0 if gen is None else 1):
+            fails.append(f"the factory was called {impl['calls']} times for {case['lookups']} in one context")
+        return ["[C18] " + f for f in fails]
+
+    def nontrivial(self, case, impl):
+        return impl["calls"] >= 1 and len(case["lookups"]) >= 2
+
+    def features(self, case, impl):
+        return ["noneproduct", "backend_" + case["backend"], "async" if case["async"] else "sync"]
+
+    def shrink(self, case):
+        for i in range(len(case["lookups"])):
+            if len(case["lookups"]) > 1:
+                yield {**case, "lookups": case["lookups"][:i] + case["lookups"][i + 1:]}
+
+
 class C18(Composite):
     id = "C18"
     quick_cases = C18Kernel.quick_cases
     thorough_cases = C18Kernel.thorough_cases
-    parts = [(7, C18Kernel()), (1, C18Startup())]
+    parts = [(14, C18Kernel()), (2, C18Startup()), (1, C18NoneProduct())]
     rule = C18Kernel.rule + ("; one case in eight is a component tree start-up (as in C05) with an event listener on the "
                              "surrounding context: every publication a component makes through its own context "
                              "(resources, factories given as lambda / partial / callable object / function with "
-                             "unresolvable annotations) is announced exactly once there, with its final name")
+                             "unresolvable annotations) is announced exactly once there, with its final name; one in seventeen "
+                             "has a factory whose product is None: generated once, announced once, however often it is looked up")
     assumptions = C18Kernel.assumptions
 
 
